@@ -119,12 +119,9 @@ def defaultTol : Rat := Generated.eqTolerance
 def small (tol : Rat) (x : GQ) : Bool := x.normSq < tol * tol
 /-- `abs(x) > EQ_TOLERANCE` -/
 def big (tol : Rat) (x : GQ) : Bool := x.normSq > tol * tol
-/-- `abs(numpy.imag(phase)) < EQ_TOLERANCE` for `phase = (a/|a|) * conj(b/|b|)` (and `phase = 1.0` in the two
-branches where `a` or `b` is negligible): `Im(a conj b)^2 < tol^2 |a|^2 |b|^2`, stated without square roots.
-(Before the repair 7be94873 of /repo the test was on the absolute size of `Im a`, `Im b`.) -/
-def realish (tol : Rat) (a b : GQ) : Bool :=
-  small tol a || small tol b ||
-    (let w := a * b.conj; w.im * w.im < tol * tol * (a.normSq * b.normSq))
+/-- `abs(numpy.imag(phase)) < EQ_TOLERANCE`: the relative phase of the two entries is real (repair 7be94873; the
+earlier code looked at the imaginary parts of `a` and `b` themselves) -/
+def realPhase (tol : Rat) (ph : GQ) : Bool := ph.im * ph.im < tol * tol
 
 def irr {α} : Except String α := .error "irrational"
 
@@ -170,7 +167,19 @@ def assemble (right real : Bool) (c s : Rat) (ph : GQ) : G2 :=
 /-- `givens_matrix_elements(a, b, which)`; `right = true` is `which='right'` -/
 def givensElems (tol : Rat) (a b : GQ) (right : Bool) : Except String G2 := do
   let (c, s, ph) ← cosSinPhase tol a b
-  .ok (assemble right (realish tol a b) c s ph)
+  -- `if abs(numpy.imag(phase)) < EQ_TOLERANCE: phase = numpy.real(phase)` and the standard rotation matrix
+  .ok (assemble right (realPhase tol ph) c s (if realPhase tol ph then GQ.ofRat ph.re else ph))
+
+/-- exact regime of the real / complex decision: an imaginary part of the relative phase that is below the
+tolerance is exactly zero -/
+def RealExact (tol : Rat) (a b : GQ) : Prop :=
+  ∀ c s ph, cosSinPhase tol a b = .ok (c, s, ph) → realPhase tol ph = true → ph.im = 0
+
+/-- executable form of `RealExact` -/
+def realExactB (tol : Rat) (a b : GQ) : Bool :=
+  match cosSinPhase tol a b with
+  | .ok (_, _, ph) => !realPhase tol ph || decide (ph.im = 0)
+  | .error _ => true
 
 /-- `(sin θ, cos θ, e^{iφ})` for `θ = arcsin(Re G[1,0])`, `φ = angle(G[1,1])` -/
 def params (G : G2) : Except String (Rat × Rat × GQ) := do
@@ -387,7 +396,7 @@ def stepExactB (tol : Rat) (M : Mat) (i j : Nat) : Bool :=
   let l := (M.get i (j - 1)).conj
   let r := (M.get i j).conj
   (!small tol l || decide (l = 0)) && (!small tol r || decide (r = 0)) &&
-  (!realish tol l r || (decide (l.im = 0) && decide (r.im = 0))) && (big tol r || decide (M.get i j = 0))
+  realExactB tol l r && (big tol r || decide (M.get i j = 0))
 
 def layerExactB (tol : Rat) (ai : Bool) : List (Nat × Nat) → Mat → Bool
   | [], _ => true
@@ -411,7 +420,7 @@ def stepExactLB (tol : Rat) (M : Mat) (l k : Nat) : Bool :=
   let a := M.get l k
   let b := M.get (l + 1) k
   (!small tol a || decide (a = 0)) && (!small tol b || decide (b = 0)) &&
-  (!realish tol a b || (decide (a.im = 0) && decide (b.im = 0))) && (big tol a || decide (a = 0))
+  realExactB tol a b && (big tol a || decide (a = 0))
 
 def leftExactB (tol : Rat) : List (Nat × Nat) → Mat → Bool
   | [], _ => true
